@@ -467,3 +467,11 @@ SUBS = [
     Sub("sequence", check_sequence, sequence_case(), quick=80, thorough=800),
     Sub("refuse", check_refuse, enum=enum_refuse),
 ]
+
+
+# objects with a history (reads that may fill caches, in-place writes): observables equal those of a fresh object
+from pbt import aged as _aged  # noqa: E402
+
+SUBS.append(_aged.sub("C20", quick=40))
+ASSUMPTIONS = list(ASSUMPTIONS) + ["aged sub-property: library results are a function of the public primary state "
+                                   "(corners, n, names, units, bc, subregions, array, validity, labels, mapping, unit)"]
